@@ -4450,6 +4450,7 @@ func (t *Terminal) Loop() error {
 				if items == nil {
 					continue
 				}
+				verifPoint("preview:dequeued")
 				version++
 				// We don't display preview window if no match
 				if items[0] != nil {
@@ -4464,6 +4465,7 @@ func (t *Terminal) Loop() error {
 					finishChan := make(chan bool, 1)
 					err := cmd.Start()
 					if err == nil {
+						verifPoint("preview:started")
 						reapChan := make(chan bool)
 						lineChan := make(chan eachLine)
 						// Goroutine 1 reads process output
@@ -4566,6 +4568,7 @@ func (t *Terminal) Loop() error {
 						<-reapChan         // Goroutine 2 and 3 finished
 						<-reapChan
 						removeFiles(tempFiles)
+						verifPoint("preview:finished")
 					} else {
 						// Failed to start the command. Report the error immediately.
 						t.reqBox.Set(reqPreviewDisplay, previewResult{version, []string{err.Error()}, 0, ""})
@@ -4591,6 +4594,7 @@ func (t *Terminal) Loop() error {
 		running := true
 		code := ExitError
 		exit := func(getCode func() int) {
+			verifPoint("term:exit")
 			if t.hasPreviewer() {
 				t.previewBox.Set(reqQuit, nil)
 			}
